@@ -1,7 +1,7 @@
 SPECIFICATION Spec
 CONSTANTS
-  NumWallets = 2
-  NumIndexes = 2
+  NumWallets = 3
+  NumIndexes = 1
   Flavor = "beacon"
   MaxSaveFail = 1
   MaxArchFail = 1
